@@ -7,6 +7,7 @@ import (
 	"bytes"
 	"fmt"
 	"os"
+	"strings"
 
 	tboc "github.com/tonkeeper/tongo/boc"
 	"github.com/tonkeeper/tongo/tlb"
@@ -167,6 +168,11 @@ func sectionSynthetic() {
 		}
 		// (c) interference: reads between two hash calls; (d) cache reuse in random order
 		interference(ts[0], root, rng, wit)
+		// copies handed out by the readers are values of their own
+		copiesAreIndependent("parsed", ts[0], root, rng, wit)
+		if i%4 == 1 {
+			multiRootHasher(root, rng, wo, map[string]any{"dag": i, "nodes": o.Nodes})
+		}
 	}
 }
 
@@ -184,7 +190,7 @@ func interference(t *tboc.Cell, r *cell.Cell, rng *mon.Rng, wit map[string]any) 
 		var trace []string
 		p := mon.Guard(func() {
 			for s := 0; s < rng.Range(1, 6); s++ {
-				switch rng.Intn(8) {
+				switch rng.Intn(19) {
 				case 0:
 					w := rng.Intn(65)
 					tc.ReadUint(w)
@@ -212,6 +218,47 @@ func interference(t *tboc.Cell, r *cell.Cell, rng *mon.Rng, wit map[string]any) 
 				case 7:
 					tc.PickUint(rng.Intn(33))
 					trace = append(trace, "PickUint")
+				case 8:
+					tc.ReadRemainingBits()
+					trace = append(trace, "ReadRemainingBits")
+				case 9:
+					tc.ReadBit()
+					trace = append(trace, "ReadBit")
+				case 10:
+					w := rng.Range(1, 64)
+					tc.ReadInt(w)
+					trace = append(trace, fmt.Sprintf("ReadInt(%d)", w))
+				case 11:
+					w := rng.Range(1, 300)
+					tc.ReadBigInt(w)
+					trace = append(trace, fmt.Sprintf("ReadBigInt(%d)", w))
+				case 12:
+					w := rng.Range(1, 300)
+					tc.ReadBigUint(w)
+					trace = append(trace, fmt.Sprintf("ReadBigUint(%d)", w))
+				case 13:
+					tc.ReadUnary()
+					trace = append(trace, "ReadUnary")
+				case 14:
+					m := rng.Range(1, 100000)
+					tc.ReadLimUint(m)
+					trace = append(trace, fmt.Sprintf("ReadLimUint(%d)", m))
+				case 15:
+					tc.GetLibraryHash()
+					trace = append(trace, "GetLibraryHash")
+				case 16:
+					tc.GetMerkleRoot()
+					trace = append(trace, "GetMerkleRoot")
+				case 17:
+					w := rng.Intn(129)
+					tc.ReadBytes(w)
+					trace = append(trace, fmt.Sprintf("ReadBytes(%d)", w))
+				case 18:
+					tc.BitsAvailableForRead()
+					tc.RefsAvailableForRead()
+					tc.BitSize()
+					tc.RawBitString()
+					trace = append(trace, "inspect")
 				}
 			}
 		})
@@ -221,6 +268,12 @@ func interference(t *tboc.Cell, r *cell.Cell, rng *mon.Rng, wit map[string]any) 
 			wit["panic"], wit["trace"] = p.Value, trace
 			R.Violation("panic@"+p.Site+"/read-between-hashes", wit)
 			return
+		}
+		for _, op := range trace {
+			if k := strings.IndexByte(op, '('); k >= 0 {
+				op = op[:k]
+			}
+			R.Seen("interference_ops", typeName(rc)+"/"+op)
 		}
 		want := rc.Hash()
 		got, err := tc.Hash()
@@ -338,6 +391,10 @@ func sectionPaths() {
 			continue
 		}
 		checkTree("built", tc, root, true, wit)
+		// reads between hashes and written-to copies, on cells that were built in memory
+		interference(tc, root, rng, wit)
+		copiesAreIndependent("built", tc, root, rng, wit)
+		tc.ResetCounters()
 		// CopyRemaining at cursor 0 is the same abstract cell
 		var cp *tboc.Cell
 		if p := mon.Guard(func() { tc.ResetCounters(); cp = tc.CopyRemaining() }); p != nil {
@@ -619,7 +676,7 @@ func main() {
 		tier = os.Args[1]
 	}
 	R = mon.Start("C02", tier)
-	R.Rule = "every node of every DAG is hashed by tongo (caching Hasher, and fresh Cell.Hash for small DAGs/roots) and by the reference model; levels compared; synthetic DAGs over all five cell types and masks 0..7 delivered through the reference BOC writer, every cell of the real blocks/proofs, every bit length 0..1023, read-interference, cache reuse, construction paths (built, ReadBits, CopyRemaining, tlb.Any, prover output); non-trivial = a node whose hash was compared; distinct = distinct reference hashes (plus distinct interference traces)"
+	R.Rule = "every node of every DAG is hashed by tongo (caching Hasher, and fresh Cell.Hash for small DAGs/roots) and by the reference model; levels compared; synthetic DAGs over all five cell types and masks 0..7 delivered through the reference BOC writer, every cell of the real blocks/proofs, every bit length 0..1023, read-interference, cache reuse, construction paths (built, ReadBits, CopyRemaining, tlb.Any, prover output); added after the audit: cells hashed while still being built (hash, write bits / add refs to the cell or a descendant, hash again through Cell.Hash/Hash256/HashString/ToBoc), copies from CopyRemaining/ReadBits/ReadRemainingBits written to while the source must keep its hash, 19 read operations incl. GetLibraryHash/GetMerkleRoot on parsed and built cells, library/Merkle cells built with NewCellExotic over level-0 trees, pruned branches storing depth 999..1023 under exactly enough ancestors to reach depth 1024 at a lower level, one Hasher over two roots that share sub-DAGs; non-trivial = a node whose hash was compared; distinct = distinct reference hashes (plus distinct interference traces)"
 	R.Assume("reference hasher harness/ref/cell is correct: pinned at start-up by the Merkle proof/update equations in the repository's real data")
 	R.Assume("levels 2-3 occur only in synthetic DAGs; there the model is vouched for by the specification text only")
 	eq, cells, err := realdata.SelfCheck(mon.RepoRoot(), true)
@@ -634,7 +691,10 @@ func main() {
 	sectionPaths()
 	sectionProver()
 	sectionProverExotic()
+	sectionIncremental()
+	sectionBuiltExotic()
 	sectionDepth()
+	sectionDepthLevels()
 	sectionReal()
 	os.Exit(R.Finish())
 }
